@@ -12,6 +12,7 @@ import (
 	"net"
 	"os"
 	"path"
+	"runtime"
 	"sort"
 	"strings"
 	"sync"
@@ -484,6 +485,20 @@ type pgInstOpt struct {
 	store     *pgStore // request server
 	sock      bool     // socketpair instead of net.Pipe
 	hub       *pgHub
+	slowRead  bool // the collector takes the response stream in 2 KiB pieces, yielding in between: the server's sends last longer
+}
+
+// pgSlowReader never stops draining; it only stretches the time a server-side Write on net.Pipe takes.
+type pgSlowReader struct{ r io.Reader }
+
+func (s pgSlowReader) Read(p []byte) (int, error) {
+	if len(p) > 2048 {
+		p = p[:2048]
+	}
+	for i := 0; i < 3; i++ {
+		runtime.Gosched()
+	}
+	return s.r.Read(p)
 }
 
 type pgInst struct {
@@ -541,7 +556,11 @@ func pgStart(o pgInstOpt) (*pgInst, error) {
 	}
 	in.hub = o.hub
 	in.col = newPgCollector(o.hub)
-	go in.col.run(c1)
+	if o.slowRead {
+		go in.col.run(pgSlowReader{c1})
+	} else {
+		go in.col.run(c1)
+	}
 	return in, nil
 }
 
